@@ -322,6 +322,24 @@ pub fn check_c03(_case: &CaseSpec, _built: &Built, t: &RunTrace, rs: &RunSpec) -
         }
     }
     let clean = !t.interrupted(rs) && t.failed.is_empty() && t.forgotten.is_empty();
+    if clean && t.aborted.is_none() && t.stream_drop.is_none() && t.panic.is_none() {
+        // a clean run that can never finish leaves functions that are never handed out
+        let stuck = t
+            .dead
+            .map(|(s, w)| (s, w.to_string()))
+            .or(t.live_cap.map(|s| (s, "no return within the poll budget".to_string())))
+            .or(t.stalled.map(|(s, f)| (s, format!("stream pending with no wake-up, function {f} releasable"))));
+        if let Some((seq, why)) = stuck {
+            if let Some(missing) = (0..t.n).find(|&i| !t.started(i)) {
+                return Some(v(
+                    Prop::C03,
+                    "clean-run-stuck-function-never-handed-out",
+                    t.run,
+                    format!("uninterrupted, unfailed run is stuck at seq {seq} ({why}); function {missing} is never handed out"),
+                ));
+            }
+        }
+    }
     if clean && t.finish_seq().is_some() {
         if let Some(missing) = (0..t.n).find(|&i| !t.started(i)) {
             return Some(v(
@@ -556,6 +574,25 @@ pub fn check_c07(_case: &CaseSpec, built: &Built, t: &RunTrace, rs: &RunSpec) ->
                     format!("function {id} (seq {seq}) is ordered after failed function {f} but was started"),
                 ));
             }
+        }
+    }
+    if !t.failed.is_empty() {
+        // "the call returns Err/Break ..." – a failed call that never returns reports nothing
+        if let Some((seq, why)) = t.dead {
+            return Some(v(
+                Prop::C07,
+                "failed-call-never-returns",
+                t.run,
+                format!("functions {:?} failed but the call is stuck at seq {seq}: {why}", t.failed.iter().map(|x| x.1).collect::<Vec<_>>()),
+            ));
+        }
+        if let Some(seq) = t.live_cap {
+            return Some(v(
+                Prop::C07,
+                "failed-call-never-returns",
+                t.run,
+                format!("functions {:?} failed but the call did not return within the poll budget (seq {seq})", t.failed.iter().map(|x| x.1).collect::<Vec<_>>()),
+            ));
         }
     }
     let Some((rseq, out)) = &t.ret else { return None };
